@@ -43,10 +43,16 @@ w("D06c", "setter lookup on assignment recurses once per prototype link",
   [(r"C02-R3b", r"JSObject\.get_setter:self-recursion")],
   script="var o={}; for(var i=0;i<3000;i++){o=Object.create(o)} var r='ok'; try{o.x=1}catch(e){r=e.name} r", expected="'ok'", bad=r"RecursionError")
 w("D07a", "a labelled break that leaves a for-in loop keeps the loop's iterator on the operand stack (one slot leaked per execution)",
-  [(r"C02-R6|C05-R3", r"BreakStatement:crossed-residues")],
+  [(r"C02-R6|C05-R3", r"BreakStatement:crossing:for-in:labelled")],
   script="var n=0; for(var i=0;i<5000;i++){ lbl: { for(var k in {a:1}){ break lbl } } n++ } n", ctx=ML, expected="5000", bad=r"MemoryLimitError")
+w("D07a2", "a labelled break that leaves a for-of loop keeps the loop's iterator on the operand stack",
+  [(r"C02-R6|C05-R3", r"BreakStatement:crossing:for-of:labelled")],
+  script="var n=0; for(var i=0;i<5000;i++){ lbl: { for(var k of [1]){ break lbl } } n++ } n", ctx=ML, expected="5000", bad=r"MemoryLimitError")
+w("D07a3", "a labelled break that leaves a switch keeps the discriminant on the operand stack",
+  [(r"C02-R6|C05-R3", r"BreakStatement:crossing:switch:labelled")],
+  script="var n=0; for(var i=0;i<5000;i++){ lbl: { switch(1){ case 1: break lbl } } n++ } n", ctx=ML, expected="5000", bad=r"MemoryLimitError")
 w("D07b", "continue inside a switch inside a loop keeps the switch discriminant on the operand stack",
-  [(r"C02-R6|C05-R3", r"ContinueStatement:crossed-residues")],
+  [(r"C02-R6|C05-R3", r"ContinueStatement:crossing:switch:unlabelled")],
   script="var n=0; for(var i=0;i<5000;i++){ switch(1){ case 1: n++; continue } } n", ctx=ML, expected="5000", bad=r"MemoryLimitError")
 w("D08a", "break out of a try block leaves its handler registered; a later throw lands in the stale catch clause",
   [(r"C02-R8|C07-R2", r"BreakStatement:handler-stack")],
